@@ -114,6 +114,12 @@ def neg_cases(tier, seed):
     import lexgen
     for s_, a in lexgen.cases("ae", 4):
         cases.append({"id": len(cases) + 1, "hdr": s_, "abs": a})
+    # very long runs of what the parser skips or repeats, each in a process of its own
+    n_ = 250000
+    for hdr, a in (("gzip" + "," * n_, ae_abs([("gzip", 1000)])), (" " * n_ + "gzip", ae_abs([("gzip", 1000)])),
+                   ("gzip;" + " " * n_ + "q=0", ae_abs([("gzip", 0)])), ("identity;q=0." + "0" * n_, {"k": "garbage"}),
+                   (", " * (n_ // 2) + "gzip;q=0.5, *;q=0.4", ae_abs([("gzip", 500), ("*", 400)]))):
+        cases.append({"id": len(cases) + 1, "hdr": hdr, "abs": a, "isolate": True})
     # arbitrary bytes: no claim beyond "no panic"
     alphabet = list(range(0x20, 0x7f)) + [0x09] + list(range(0x80, 0x100))
     ng = 100000 if tier == "thorough" else 15000
